@@ -188,7 +188,9 @@ void clean_up_locals () {
 }
 
 void pop_n_locals (int num) {
-  while (num--)
+  /* a declaration refused with "Too many local variables" was counted by the
+   * grammar but never pushed, so never pop more than what is there */
+  while (num-- && current_number_of_locals > 0)
     {
       locals_ptr[--current_number_of_locals]->sem_value--;
       locals_ptr[current_number_of_locals]->dn.local_num = -1;
